@@ -327,6 +327,8 @@ func ParseSliceHeader(nalu []byte, spsMap map[uint32]*SPS, ppsMap map[uint32]*PP
 		if pps.DeblockingFilterOverrideEnabledFlag {
 			sh.DeblockingFilterOverrideFlag = r.ReadFlag()
 		}
+		// When not present, slice_deblocking_filter_disabled_flag is inferred to be equal to the PPS flag
+		sh.DeblockingFilterDisabledFlag = pps.DeblockingFilterDisabledFlag
 		if sh.DeblockingFilterOverrideFlag {
 			sh.DeblockingFilterDisabledFlag = r.ReadFlag()
 			if !sh.DeblockingFilterDisabledFlag {
